@@ -409,6 +409,41 @@ pub fn run_wf(ctx: &mut Ctx) {
 
 /// C04: only the exact credentials open a database
 pub fn run_cred(ctx: &mut Ctx) {
+    // every class of key file x every edit that touches the key file, with and without a password (both tiers)
+    {
+        use base64::Engine;
+        let mut rng = ctx.rng.fork();
+        let classes: Vec<Vec<u8>> = vec![
+            rng.bytes(32),
+            hex::encode(rng.bytes(32)).into_bytes(),
+            rng.bytes(20),
+            format!("<KeyFile><Meta><Version>1.00</Version></Meta><Key><Data>{}</Data></Key></KeyFile>", base64::engine::general_purpose::STANDARD.encode(rng.bytes(32))).into_bytes(),
+            format!("<KeyFile><Meta><Version>1.00</Version></Meta><Key><Data>{}</Data></Key></KeyFile>", base64::engine::general_purpose::STANDARD.encode(rng.bytes(31))).into_bytes(),
+            format!("<KeyFile><Meta><Version>2.0</Version></Meta><Key><Data>{}</Data></Key></KeyFile>", hex::encode(rng.bytes(32))).into_bytes(),
+            format!("<?xml version=\"1.0\"?><Workbook><Cell><Data Type=\"String\">{}</Data></Cell><Version>2.0</Version></Workbook>", hex::encode(rng.bytes(16))).into_bytes(),
+            { let mut b = rng.bytes(70_003); b[0] = 0; b },     // delivered in pieces of 512 bytes by `make_key`
+            { let mut b = rng.bytes(70_002); b[0] = 2; b },     // … of 4096 bytes
+        ];
+        for (ci, kf) in classes.iter().enumerate() {
+            for pw in [None, Some("demopass".to_string())] {
+                let creds = Creds { pw: pw.clone(), kf: Some(kf.clone()) };
+                let comp = match ref_composite(&creds.pw, &creds.kf) { Some(c) => c, None => continue };
+                let mut spec = gen_spec(&mut rng);
+                spec.kdf = Kdf::Aes { rounds: 2, seed: rng.bytes(32) };
+                let layout = gen_layout(&mut rng, &spec);
+                let data = kdbx::build_kdbx4(&spec, &layout, &comp).unwrap();
+                for n in [6u64, 12, 13, 14, 15, 5, 11] {
+                    let (pw2, kf2, what) = edit_creds_n(&mut rng, &creds, n);
+                    let comp2 = ref_composite(&pw2, &kf2);
+                    if comp2.as_deref() == Some(&comp[..]) {
+                        continue;
+                    }
+                    let key2 = match catch(|| make_key(&pw2, &kf2)) { Ok(k) => k, Err(_) => continue };
+                    emit_read(ctx, "cred", &data, comp2.as_deref(), &key2, json!({"edit": what, "keyfile_class": ci}), vec![format!("edit:{}", what), format!("keyfile-class:{}", ci)], true);
+                }
+            }
+        }
+    }
     let count = ctx.count(60, 400);
     let edits_per = if ctx.thorough { 40 } else { 8 };
     for fi in 0..count {
@@ -437,21 +472,22 @@ pub fn run_cred(ctx: &mut Ctx) {
             if comp2.as_deref() == Some(&comp[..]) {
                 continue; // the edit did not change the derived key (e.g. same key file content re-encoded)
             }
-            let key2 = {
-                let mut k = DatabaseKey::new();
-                if let Some(p) = &pw2 { k = k.with_password(p); }
-                if let Some(f) = &kf2 { k = k.with_keyfile(&mut &f[..]).unwrap(); }
-                k
-            };
+            // the offered key file arrives in pieces, like the right one (`make_key`)
+            let key2 = match catch(|| make_key(&pw2, &kf2)) { Ok(k) => k, Err(_) => continue };
             emit_read(ctx, "cred", &data, comp2.as_deref(), &key2, json!({"edit": what}), vec![format!("edit:{}", what)], true);
         }
     }
 }
 
 fn edit_creds(rng: &mut Rng, c: &Creds) -> (Option<String>, Option<Vec<u8>>, &'static str) {
+    let n = rng.below(16);
+    edit_creds_n(rng, c, n)
+}
+
+fn edit_creds_n(rng: &mut Rng, c: &Creds, n: u64) -> (Option<String>, Option<Vec<u8>>, &'static str) {
     let pw = c.pw.clone();
     let kf = c.kf.clone();
-    match rng.below(16) {
+    match n {
         15 => (pw, kf.map(|k| { let t = String::from_utf8_lossy(&k).to_string(); if t.contains("<Version>2.0</Version>") { t.replacen("<Version>2.0</Version>", *rng.pick(&["<Version>2.1</Version>", "<Version>2.00</Version>", "<Version>2.</Version>", "<Version>2.0 </Version>"]), 1).into_bytes() } else if t.contains("<Version>1.00</Version>") { t.replacen("<Version>1.00</Version>", "<Version>1.0</Version>", 1).into_bytes() } else { let mut k = k; k.insert(0, b' '); k } }).or(Some(vec![4u8; 32])), "keyfile-version-text-changed"),
         14 => (pw, kf.map(|k| { let t = String::from_utf8_lossy(&k).to_string(); if t.contains("=</Data>") { t.replacen("=</Data>", "</Data>", 1).into_bytes() } else if t.contains("</Data>") { t.replacen("</Data>", "=</Data>", 1).into_bytes() } else { let mut k = k; k.push(b'='); k } }).or(Some(vec![3u8; 32])), "keyfile-payload-padding-changed"),
         12 => (pw, kf.map(|mut k| { if let Some(l) = k.last_mut() { *l ^= 1 << rng.below(8); } else { k.push(1); } k }).or(Some(vec![1u8; 33])), "keyfile-last-byte-flip"),
@@ -499,6 +535,54 @@ pub fn run_tamper(ctx: &mut Ctx) {
         }
         let end = bounds.last().unwrap() + 36;
         assert_eq!(end, data.len());
+        // keyless edits whose (unchanged) MAC agrees with the right one in its first or in its last byte only: a comparison
+        // that does not look at all 32 bytes accepts them. The harness knows the key and searches the variants an attacker
+        // would have to try blindly (about 256 each).
+        if let Ok(keys) = kdbx::derive(&spec.kdf, &spec.master_seed, &comp) {
+            let hk = kdbx::block_key(&keys.hmac_base, u64::MAX);
+            let stored = data[hlen + 32..hlen + 64].to_vec();
+            for (which, name) in [(31usize, "last"), (0usize, "first")] {
+                for v in 0..=u16::MAX {
+                    let mut h = data[..hlen].to_vec();
+                    if h[8..10] == v.to_le_bytes() {
+                        continue;
+                    }
+                    h[8..10].copy_from_slice(&v.to_le_bytes());
+                    let mac = kdbx::hmac256(&hk, &[&h]);
+                    if mac[which] == stored[which] && mac != stored {
+                        let mut d = h.clone();
+                        d.extend_from_slice(&kdbx::sha256(&[&h]));
+                        d.extend_from_slice(&data[hlen + 32..]);
+                        let what = format!("header-edit-mac-agrees-in-{}-byte", name);
+                        emit_read(ctx, "tamper", &d, Some(&comp), &key, json!({"mutation": what, "original": orig}), vec![format!("mutation:{}", what)], true);
+                        break;
+                    }
+                }
+            }
+            // the same for the first data block: flip one bit of its content
+            if bounds.len() >= 2 && bounds[1] - bounds[0] > 36 {
+                let (a, b) = (bounds[0], bounds[1]);
+                let k0 = kdbx::block_key(&keys.hmac_base, 0);
+                let stored = data[a..a + 32].to_vec();
+                let chunk = data[a + 36..b].to_vec();
+                for (which, name) in [(31usize, "last"), (0usize, "first")] {
+                    'search: for i in 0..chunk.len().min(400) {
+                        for bit in 0..8 {
+                            let mut c = chunk.clone();
+                            c[i] ^= 1 << bit;
+                            let mac = kdbx::hmac256(&k0, &[&kdbx::le64(0), &kdbx::le32(c.len() as u32), &c]);
+                            if mac[which] == stored[which] && mac != stored {
+                                let mut d = data.clone();
+                                d[a + 36 + i] ^= 1 << bit;
+                                let what = format!("block-edit-mac-agrees-in-{}-byte", name);
+                                emit_read(ctx, "tamper", &d, Some(&comp), &key, json!({"mutation": what, "original": orig}), vec![format!("mutation:{}", what)], true);
+                                break 'search;
+                            }
+                        }
+                    }
+                }
+            }
+        }
         for mi in 0..per_file {
             let (m, what): (Vec<u8>, String) = match mi % 12 {
                 0 | 1 | 2 | 3 => {
